@@ -59,6 +59,7 @@ class SerialAssembleAction : public AssembleAction {
     virtual void onResume() override;
     virtual void onStop() override;
     virtual void onReset() override;
+    virtual void onFinished(bool is_succ, const Reason &why, const Trace &trace) override;
 
   protected:
     using ChildFinishFunc = std::function<void()>;
